@@ -4,6 +4,7 @@
 -/
 import QiVerif.Generated.Service
 import QiVerif.Model.Service
+import QiVerif.Model.Mailbox
 namespace QiVerif.Tie.C16
 
 /-- `Remove`: under the lock, if the object exists both map entries go away, then (outside
@@ -19,6 +20,10 @@ theorem receive_flow :
     Gen.Service.receiveFlow =
       ["RLock", "read boxes", "RUnlock", "if !ok {", "call from.SendError",
        "return from.SendError(m, ErrObjectNotFound)", "}", "send box", "return nil"] := by decide
+
+/-- the sender's program of Model/Mailbox.lean is what the tokens of `Receive` compile to: the read lock is released
+    before the send into the mailbox (Props/C16Mailbox.lean `not_stuck` is about this program) -/
+theorem receive_compiles : Mailbox.compile Gen.Service.receiveFlow = Mailbox.prog := by decide
 
 /-- `Add`: an identifier in use is never handed out (the draw is repeated), the object and
     its mailbox are entered together -/
